@@ -41,6 +41,11 @@ CHECKS.update({
                 text="For each base run EVERY evaluation index k = 2..T is used as a fault position (exception type rotating over positions, a few positions per base with all eight types incl. KeyboardInterrupt, SystemExit, GeneratorExit and a custom BaseException; Solve entered directly or after DoGlobalIteration batches; with and without a listener). Each faulted run of the real solver is recorded and validated by TLC: Solve returns, reported trial count / best point / best value are those of the k-1 completed trials, and the full public snapshot of the search information equals the specification's record of exactly those trials (ordering, links, lengths, images, values; the failed point absent). AGP.tla checks the same clauses in every state of an exhaustive exploration in which the objective may raise at any evaluation, and termination of Solve under faults." + SOLVER_NOTE),
 })
 
+CHECKS.update({
+    "C11": dict(level="model_checking", design="4/C11", technique="TLC exhaustive self-composition (AGPPair.tla: arbitrary call pattern vs. reference on every objective over a finite value set) + TLC-enumerated call patterns replayed on the real solver + TLC trace validation and pairwise sequence comparison (SeqCompare.tla)",
+                text="AGPPair.tla: a solver driven by an arbitrary mixture of DoGlobalIteration(k) and Solve calls and a reference making single iterations share one nondeterministically chosen objective; in every reachable state the driven solver's trials are the reference's trials of the same index, its state at equal trial counts is the reference's state, a completed Solve has made exactly max(trials before the call, first index at which the stop criterion held) trials, that index is a function of the history alone, and Solve on a finished solver makes no trial. All compositions of up to 7 (quick: 5) iterations into batches followed by 0/1/2 Solve calls are enumerated by TLC from the specification's user actions and replayed on fresh real solvers for several objectives, dimensions and (eps, itersLimit) combinations; long random compositions, late-window patterns (batch ending j trials before the end, results read, then Solve), repeated runs in one process and in fresh interpreters with other hash seeds. Every run is validated by AGPTrace.tla and compared bit for bit with the reference by SeqCompare.tla." + SOLVER_NOTE),
+})
+
 NOT_YET = {
 }
 
